@@ -54,7 +54,7 @@ def model(seq):
 def chunks(tier, seed):
     out = []
     for d in fp.CTX:
-        for pos in ("top", "from_sub", "setop_operand", "setop_self", "setop_self_ordered_operand"):
+        for pos in ("top", "from_sub", "join_sub", "in_sub", "setop_operand", "setop_self", "setop_self_ordered_operand"):
             for order in (False, True):
                 out.append({"d": d, "pos": pos, "order": order, "depth": 2 if tier == "quick" else 3})
     return out
@@ -242,6 +242,14 @@ def build_case(d, pos, order, seq):
         return inner
     if pos == "from_sub":
         return {"calls": [["from", ["q", "s", inner, "s"]], ["select", [["f", "s", "a"]]]]}
+    if pos == "join_sub":
+        # values before (select list), inside the ON criterion and after (WHERE) the paginated subquery
+        return {"calls": [["from", T], ["join", "inner", ["q", "s", inner, "s"],
+                                        ["on", ["logic", "AND", ["cmp", "=", ["f", "t", "id"], ["f", "s", "a"]], ["cmp", ">", ["f", "s", "a"], ["raw", 7001]]]]],
+                          ["select", [["arith", "+", ["f", "s", "a"], ["raw", 9001]]]], ["where", ["cmp", "<", ["f", "t", "b"], ["raw", 8001]]]]}
+    if pos == "in_sub":
+        return {"calls": [["from", T], ["select", [["arith", "+", ["f", "t", "b"], ["raw", 9001]]]],
+                          ["where", ["logic", "AND", ["insub", ["f", "t", "a"], inner], ["cmp", "<", ["f", "t", "b"], ["raw", 8001]]]]]}
     if pos == "setop_operand":
         return {"calls": [["from", T], ["select", [["f", "t", "b"]]], ["union_all", inner]]}
     raise ValueError(pos)
@@ -288,6 +296,10 @@ def run_case(case):
             span = toks
         elif pos == "from_sub":
             span = paren_group_after(toks, "FROM")
+        elif pos == "join_sub":
+            span = paren_group_after(toks, "JOIN")
+        elif pos == "in_sub":
+            span = paren_group_after(toks, "IN")
         else:
             span = paren_group_after(toks, "ALL")
             if span is None:  # unwrapped operand (MySQL): everything after UNION ALL
